@@ -257,6 +257,9 @@ func (versionSuite) Gen(r *Rng, i int, tier string) any {
 		con := genConstraint(r, req)
 		c.Ops = append(c.Ops, vOp{Op: "con", A: con})
 		c.Ops = append(c.Ops, vOp{Op: "sat", A: con, B: act})
+		if j < 3 {
+			c.Ops = append(c.Ops, vOp{Op: "res", A: con, B: act})
+		}
 	}
 	// tilde with a truncated requirement (prefix of the numbers)
 	{
@@ -272,8 +275,11 @@ func (versionSuite) Gen(r *Rng, i int, tier string) any {
 			req.rev = v.rev
 		}
 		con := "foo~" + req.String()
-		for _, s := range strs {
+		for k, s := range strs {
 			c.Ops = append(c.Ops, vOp{Op: "sat", A: con, B: s})
+			if k < 2 {
+				c.Ops = append(c.Ops, vOp{Op: "res", A: con, B: s})
+			}
 		}
 	}
 	return c
@@ -347,7 +353,40 @@ func (versionSuite) Run(raw json.RawMessage) []Step {
 				}
 			}
 			steps = append(steps, Step{Line: "v.sat\t" + hx(op.A) + "\t" + hx(op.B), Go: out, Desc: fmt.Sprintf("ResolvePackageNameVersionPin(%q).SatisfiedBy(%q)", op.A, op.B), Tags: []string{fmt.Sprintf("sat:dep%d:%s", d, out)}, Trivial: out == "verr" || out == "err"})
+		case "res":
+			// the constraint as the RESOLVER applies it: three one-candidate universes in which the only way to
+			// succeed is that the candidate's version is accepted by the constraint
+			p := apk.ResolvePackageNameVersionPin(op.A)
+			n, _, d, pin := apk.VerifConstraintFields(p)
+			_, ov := goParse(op.B)
+			if n == "" || pin != "" || strings.HasPrefix(n, "!") || strings.HasPrefix(n, "zz-") || ov == "err" || strings.ContainsAny(n, "=<>~@ ") {
+				continue
+			}
+			out := vResolveThrough(n, strings.TrimSuffix(op.A, "@"+pin), op.B)
+			steps = append(steps, Step{Line: "v.res\t" + hx(op.A) + "\t" + hx(op.B), Go: out, Desc: fmt.Sprintf("one-candidate resolutions (world entry / dependency on the name / dependency on a provided name) of %q against version %q", op.A, op.B), Tags: []string{fmt.Sprintf("res:dep%d:%s", d, out)}})
 		}
 	}
 	return steps
+}
+
+// vResolveThrough runs three resolutions whose only candidate for constraint `con` (on name n) has version v:
+//   w: world [con], universe {n=v}
+//   d: world [zz-app], universe {n=v, zz-app depends on con}
+//   p: world [zz-app], universe {zz-prov=v provides n=v, zz-app depends on con}
+// and answers "ok"/"err" when they agree, the three verdicts otherwise.
+func vResolveThrough(n, con, v string) string {
+	one := func(pkgs []rPkg, world []string) string {
+		out := goResolve([]rArch{{Arch: "x86_64", Indexes: []rIndex{{URI: "https://repo.test/os", Pkgs: pkgs}}}}, 0, world, false)
+		if strings.HasPrefix(out, "ok") {
+			return "ok"
+		}
+		return "err"
+	}
+	w := one([]rPkg{{Name: n, Version: v}}, []string{con})
+	d := one([]rPkg{{Name: n, Version: v}, {Name: "zz-app", Version: "1.0-r0", Deps: []string{con}}}, []string{"zz-app"})
+	pv := one([]rPkg{{Name: "zz-prov", Version: v, Provides: []string{n + "=" + v}}, {Name: "zz-app", Version: "1.0-r0", Deps: []string{con}}}, []string{"zz-app"})
+	if w == d && d == pv {
+		return w
+	}
+	return "world=" + w + ",dep=" + d + ",provided=" + pv
 }
